@@ -3,6 +3,7 @@
 -/
 import Driver.Proto
 import FcModel.Spec.Predicates
+import FcModel.Spec.ClusterA
 namespace Fc.Drv
 open Fc
 
@@ -25,18 +26,58 @@ def opPred : P String := do
   match kind with
   | "fuzzy" =>
     let m := fuzzyCheck rel abs a b
-    let hyp := hypC01 rel abs a b
-    let spec := match Spec.fuzzySpec rel abs a b with
+    let hyp64 := hypC01 rel abs a b
+    let optV : Option Bool → String := fun o => match o with
       | some v => showVerdict (.ok v)
       | none => "E"
+    -- hypothesis class of the theorem that speaks about this case (`hk`):
+    --   f64  : C01_model_eq_spec            (two float64 arrays, well-shaped tolerances)
+    --   weak : C01_weak_model_eq_spec       (two float32 / two float16 arrays, Python-float
+    --                                        tolerances whose roundings to the format are finite)
+    --   int  : C10_int_model_eq_spec        (two arrays of one SIGNED integer type, every entry
+    --                                        pair `intSafe`, number-valued / default tolerances;
+    --                                        the code's per-entry fallback exists for ≤ 1-d only)
+    let fmtOf : NdArr → Option Fmt := fun x => match x.dtype with
+      | .flt F => some F
+      | _ => none
+    let hypW : Option Fmt := match fmtOf a, fmtOf b with
+      | some F, some G =>
+        if F == G && F != f64 && (Spec.weakTol F rel).isSome && (Spec.weakTol F abs).isSome then some F else none
+      | _, _ => none
+    let hypI : Option Nat := match a.dtype, b.dtype with
+      | .int true bits, .int true bits' =>
+        if bits == bits' && a.shape.length ≤ 1 && b.shape.length ≤ 1 && Spec.intSafeArr bits a b
+            && (Spec.intTolNum rel).isSome && (Spec.intTolNum abs).isSome then some bits else none
+      | _, _ => none
+    let (hyp, hk, spec) : Bool × String × String :=
+      if hyp64 then (true, "f64", optV (Spec.fuzzySpec rel abs a b))
+      else match hypW with
+        | some F => (true, "weak", optV (Spec.fuzzySpecWeak F rel abs a b))
+        | none => match hypI with
+          | some _ => (true, "int", optV (Spec.fuzzySpecInt rel abs a b))
+          | none => (false, "-", "-")
     -- mhyp: the model is meant to reproduce the implementation (wider than the theorems' hyp):
-    -- two float32 arrays with tolerances whose float32 roundings stay finite
-    let f32ok : Tol → Bool := fun t => match t with
-      | .num u => (rndMag f32 u 0).isSome
+    --   * two float32 / float16 arrays with weak tolerances (finite roundings), well-shaped array
+    --     tolerances or scaled tolerances ("strong" route, C01_mixed_kernel);
+    --   * two arrays of one integer type (signed or unsigned), ≤ 1-d, no entry the type minimum,
+    --     number-valued / default tolerances (wrapping arithmetic is modelled: F12 is reproduced).
+    let shp := if a.shape.length ≥ b.shape.length then a.shape else b.shape
+    let fmtTolOk (F : Fmt) : Tol → Bool := fun t => match t with
+      | .num u => (rndMag F u 0).isSome
       | .dflt => true
-      | _ => false
-    let mhyp := hyp || (a.dtype == .flt f32 && b.dtype == .flt f32 && f32ok rel && f32ok abs)
-    pure s!"hyp={showBool hyp} mhyp={showBool mhyp} model={showVerdict m} spec={if hyp then spec else "-"}"
+      | .arr s _ => s == shp.tail
+      | _ => !a.data.isEmpty
+    let mhypF : Bool := match fmtOf a, fmtOf b with
+      | some F, some G => F == G && F != f64 && fmtTolOk F rel && fmtTolOk F abs
+      | _, _ => false
+    let mhypI : Bool := match a.dtype, b.dtype with
+      | .int sg bits, .int sg' bits' =>
+        sg == sg' && bits == bits' && a.shape.length ≤ 1 && b.shape.length ≤ 1
+          && Spec.arrNoMin a && Spec.arrNoMin b
+          && (Spec.intTolNum rel).isSome && (Spec.intTolNum abs).isSome
+      | _, _ => false
+    let mhyp := hyp || mhypF || mhypI
+    pure s!"hyp={showBool hyp} mhyp={showBool mhyp} hk={hk} model={showVerdict m} spec={spec}"
   | "default" =>
     let m := defaultCheck rel abs a b
     let exact := !a.dtype.hasFloats && !b.dtype.hasFloats
@@ -54,8 +95,14 @@ def opPred : P String := do
           | some v => showVerdict (.ok v)
           | none => "E"
       let hyp := exact || hypC01 rel abs a' b'
-      pure s!"hyp={showBool hyp} model={showVerdict m} spec={if hyp then spec else "-"}"
-    | _, _ => pure s!"hyp=0 model={showVerdict m} spec=-"
+      -- hk: exact = C09_int_str_exact; mixed = C09_mixed_default_left/_right (an integer array
+      -- without the type minimum next to a float64 array); f64 = C09_float_side_fuzzy + C01
+      let isInt : NdArr → Bool := fun x => match x.dtype with
+        | .int _ _ => true
+        | _ => false
+      let hk := if !hyp then "-" else if exact then "exact" else if isInt a || isInt b then "mixed" else "f64"
+      pure s!"hyp={showBool hyp} hk={hk} model={showVerdict m} spec={if hyp then spec else "-"}"
+    | _, _ => pure s!"hyp=0 hk=- model={showVerdict m} spec=-"
   | "exact" =>
     let m := exactCheck a b
     pure s!"hyp=1 model={showVerdict m} spec={showVerdict (.ok (Spec.exactSpec a b))}"
